@@ -29,7 +29,7 @@ IntStep == \E c \in Copies :
 \* a close is worth a step of the history when the path was modified since the last collection
 \* (it then either collects or is held off by a lock); once every copy has returned the remaining
 \* budget is spent
-CloseUseful(k) == (modRefs[k].ex /\ modRefs[k].mod) \/ \A c \in Copies : cst[c] \in {"ok", "err"}
+CloseUseful(k) == (modRefs[GcKey(k)].ex /\ modRefs[GcKey(k)].mod) \/ \A c \in Copies : cst[c] \in {"ok", "err"}
 SchedStep ==
   \/ \E c \in Copies :
        \/ CopyBegin(c) /\ Rec("CopyBegin", c, "", "")
